@@ -660,6 +660,12 @@ class VM:
         """a symbolic scalar that must be concrete to proceed: fork over its feasible values (bounded)"""
         term = z3.simplify(term)
         if z3.is_bv_value(term): return term.as_long()
+        dom = self.domains.get(term.get_id())
+        if dom is not None and len(dom) <= 8:
+            vals = sorted(dom)
+            if len(vals) == 1: return vals[0]
+            c = self.choose([term == v for v in vals]); self.domains[term.get_id()] = {vals[c]}
+            return vals[c]
         def enum():
             vals, extra = [], []
             for _ in range(9):          # enumerate up to 8 feasible values
